@@ -19,15 +19,15 @@ import (
 // control / execute / judge machinery as generated worlds (hierarchy index =
 // directedBase + k, so --replay works unchanged).
 //
-//   window-*      responses whose ONLY defect is the RRSIG validity window, at
-//                 every response role, against NSEC and NSEC3 zones
-//   mixedds-*     the parent's DS RRset mixes usable and unusable records in a
-//                 given wire order; the child's signatures are stripped
-//   unusableds-*  the DS RRset has no usable record: legitimately insecure
-//   anchor-loss-* the live trust set is emptied in the middle of a history
-//   regress-*     positions of the repaired defects db9694b / febc9c7
-//   island-cut-*  signed zone below an insecure cut whose ancestor's server
-//                 answers for it directly (FINDINGS.md #3), made deterministic
+//	window-*      responses whose ONLY defect is the RRSIG validity window, at
+//	              every response role, against NSEC and NSEC3 zones
+//	mixedds-*     the parent's DS RRset mixes usable and unusable records in a
+//	              given wire order; the child's signatures are stripped
+//	unusableds-*  the DS RRset has no usable record: legitimately insecure
+//	anchor-loss-* the live trust set is emptied in the middle of a history
+//	regress-*     positions of the repaired defects db9694b / febc9c7
+//	island-cut-*  signed zone below an insecure cut whose ancestor's server
+//	              answers for it directly (FINDINGS.md #3), made deterministic
 const directedBase = 1000000
 
 type directedDef struct {
@@ -166,6 +166,75 @@ func buildDirectedDefs() []directedDef {
 		h := basic(k, modeNSEC, modeUnsigned, dns.ECDSAP256SHA256, 3)
 		h.Levels[2].Servers = []string{"zone-a"}
 		return h
+	})
+	// chase-*: alias chains whose hops differ in security (chase.go). zone /
+	// other / sub modes are chosen so that every direction occurs:
+	//   chase-0  secure alias -> unsigned target; secure sub
+	//   chase-1  unsigned alias zone -> secure target (the reverse)
+	//   chase-2  secure alias -> signed-but-DS-less target (RRSIGs present,
+	//            nothing anchors them); unsigned sub below the secure zone
+	//   chase-3  opt-out parent: secure alias zone -> insecure target under an
+	//            opt-out span; opt-out sub
+	//   chase-4  everything secure (the composition must KEEP AD)
+	chase := func(k int, tldMode, zoneMode, otherMode, subMode ZoneMode, alg uint8, qmin int) *HierSpec {
+		t := directedTLD(k)
+		h := &HierSpec{QMin: qmin, Levels: []LevelSpec{
+			lvl("root", ".", modeNSEC, dns.ECDSAP256SHA256, "root-a"),
+			lvl("tld", t, tldMode, dns.ECDSAP256SHA256, "tld-a"),
+			lvl("zone", "zone."+t, zoneMode, alg, "zone-a"),
+			lvl("other", "other."+t, otherMode, dns.ECDSAP256SHA256, "other-a"),
+		}}
+		if subMode != "" {
+			h.Levels = append(h.Levels, lvl("sub", "sub.zone."+t, subMode, dns.ECDSAP256SHA256, "sub-a"))
+		}
+		return h
+	}
+	add("chase-0", func(k int) *HierSpec {
+		return chase(k, modeNSEC, modeNSEC, modeUnsigned, modeNSEC3, dns.ECDSAP256SHA256, 0)
+	})
+	add("chase-1", func(k int) *HierSpec {
+		return chase(k, modeNSEC3, modeUnsigned, modeNSEC, "", dns.ECDSAP256SHA256, 3)
+	})
+	add("chase-2", func(k int) *HierSpec {
+		return chase(k, modeNSEC, modeNSEC3, modeIsland, modeUnsigned, dns.ED25519, 0)
+	})
+	add("chase-3", func(k int) *HierSpec {
+		return chase(k, modeOptOut, modeNSEC, modeUnsigned, modeOptOut, dns.ECDSAP256SHA256, 3)
+	})
+	add("chase-4", func(k int) *HierSpec {
+		return chase(k, modeNSEC, modeNSEC, modeNSEC3, modeNSEC, dns.ECDSAP256SHA256, 0)
+	})
+	// shared-*: parent and child zone on ONE server (no referral is crossed:
+	// the zone whose servers answer differs from the zone that signs), for the
+	// parent-owned denial forgeries of denial.go.
+	//   shared-0  T (NSEC) and Z.T (NSEC) on tld-a
+	//   shared-1  T (NSEC3) and Z.T (NSEC3) on tld-a + tld-b
+	//   shared-2  Z.T (NSEC) and S.Z.T (NSEC) on zone-a: the pair one level down
+	//   shared-3  T (NSEC), Z.T (NSEC3), S.Z.T (NSEC) all on tld-a
+	shared := func(k int, tldMode, zoneMode, subMode ZoneMode, qmin int, tldSrv, zoneSrv, subSrv []string) *HierSpec {
+		t := directedTLD(k)
+		h := &HierSpec{QMin: qmin, Levels: []LevelSpec{
+			lvl("root", ".", modeNSEC, dns.ECDSAP256SHA256, "root-a"),
+			lvl("tld", t, tldMode, dns.ECDSAP256SHA256, tldSrv...),
+			lvl("zone", "zone."+t, zoneMode, dns.ECDSAP256SHA256, zoneSrv...),
+			lvl("other", "other."+t, modeNSEC, dns.ECDSAP256SHA256, "other-a"),
+		}}
+		if subMode != "" {
+			h.Levels = append(h.Levels, lvl("sub", "sub.zone."+t, subMode, dns.ECDSAP256SHA256, subSrv...))
+		}
+		return h
+	}
+	add("shared-0", func(k int) *HierSpec {
+		return shared(k, modeNSEC, modeNSEC, "", 0, []string{"tld-a"}, []string{"tld-a"}, nil)
+	})
+	add("shared-1", func(k int) *HierSpec {
+		return shared(k, modeNSEC3, modeNSEC3, "", 3, []string{"tld-a", "tld-b"}, []string{"tld-a", "tld-b"}, nil)
+	})
+	add("shared-2", func(k int) *HierSpec {
+		return shared(k, modeNSEC, modeNSEC, modeNSEC, 0, []string{"tld-a"}, []string{"zone-a"}, []string{"zone-a"})
+	})
+	add("shared-3", func(k int) *HierSpec {
+		return shared(k, modeNSEC, modeNSEC3, modeNSEC, 3, []string{"tld-a"}, []string{"tld-a"}, []string{"tld-a"})
 	})
 	return defs
 }
@@ -344,6 +413,28 @@ func directedPlans(w *world, controlOK map[string]bool) []plan {
 		add("strip-rrsig", "sub-nx", roleNegative, false)
 	case "unusableds":
 		add("strip-rrsig", "zone-pos", roleAnswer, false)
+	case "shared":
+		roles := []string{"zone"}
+		if w.zones["sub"] != nil {
+			roles = []string{"sub", "zone"}
+			if w.spec.Directed == "shared-2" {
+				roles = []string{"sub"}
+			}
+		}
+		for _, zr := range roles {
+			for _, k := range []string{"denial-parent-nsec", "denial-parent-nsec-psigned", "denial-parent-nsec3", "denial-parent-nsec3-psigned"} {
+				add(k, zr+"-nx", roleNegative, false)
+				add(k, zr+"-nodata", roleNegative, false)
+			}
+			add("denial-parent-nsec", zr+"-nxdeep", roleNegative, false)
+			add("denial-parent-nsec", zr+"-wildnodata", roleNegative, false)
+			add("denial-parent-nsec3", zr+"-nxdeep", roleNegative, false)
+			add("denial-parent-nsec3", zr+"-ent", roleNegative, false)
+			for _, k := range []string{"forge-neg-parent-nsec", "forge-neg-parent-nsec3"} {
+				add(k, zr+"-pos", roleAnswer, false)
+				add(k, zr+"-mx", roleAnswer, false)
+			}
+		}
 	case "regress":
 		add("forge-nx-parent-nsec", "zone-pos", roleAnswer, false)
 		add("forge-nx-parent-nsec", "zone-mx", roleAnswer, false)
